@@ -96,7 +96,7 @@ CLAIMS.update({
               'for every history from the empty store, every origin script and configuration, if reqs covers the requests sent to the origin up to URL key and header block and '
               'varies the Vary values of the origin\'s replies, then after the history and after every prefix of it every key of the store is in candidate_keys reqs varies, the '
               'number of distinct keys and the length of every index are at most its length <= |reqs| * (1 + |varies|), and no index lists a response id twice or holds a null element; '
-              'C19_history_nonvacuous: six alternating requests, three keys, an index of two). Monitor mon_C19 bounds live keys and index '
+              'C19_history_nonvacuous: six alternating requests, three keys, an index of two); C19_concurrent: the same invariant and bound under every schedule of concurrent calls and background revalidations (Proofs/FootConc.v). Monitor mon_C19 bounds live keys and index '
               'length independently of history length on long repetitive histories (profile repeat) on the real store.'),
         note=COMMON_NOTE + ' Orphaned entries whose reference was replaced by a reply with a different Vary are bounded by the distinct variants but not collected; the monitor bound allows them.'),
 })
